@@ -318,6 +318,10 @@ class H2(Case):
     env = ENV
     real_env = {}
 
+    # the instance pre-search of core.guided_search substitutes Real/Int variables only and returns
+    # no values for the Bool flags (the replay would then draw them at random): full query directly
+    presearch_attempts = 0
+
     def __init__(self):
         self.id = "H2/modes_x_exists_x_named"
         self.bounds = {"modes": list(MODES), "exists": [True, False], "filename": ["given", None]}
@@ -416,6 +420,8 @@ class H3(Case):
     stubs = h5stub.STUB_TEXT
     env = ENV
     real_env = {}
+
+    presearch_attempts = 0      # Bool flags: see H2
 
     def __init__(self):
         self.id = "H3/export_overwrite_x_exists"
